@@ -6,6 +6,7 @@ use std::fmt::Write as _;
 use std::io::{BufRead, BufReader, BufWriter, Write};
 use std::panic::{AssertUnwindSafe, catch_unwind};
 
+mod bitmat;
 mod cache;
 mod codec;
 mod groups;
@@ -37,7 +38,11 @@ fn main() {
         eprintln!("usage: rqh <casefile> <outfile>");
         std::process::exit(2);
     }
-    std::panic::set_hook(Box::new(|_| {}));
+    if std::env::var("RQH_VERBOSE").is_ok() {
+        std::panic::set_hook(Box::new(|info| eprintln!("panic: {}", info)));
+    } else {
+        std::panic::set_hook(Box::new(|_| {}));
+    }
     let input = BufReader::new(std::fs::File::open(&args[1]).expect("open casefile"));
     let mut out = BufWriter::new(std::fs::File::create(&args[2]).expect("create outfile"));
     for line in input.lines() {
